@@ -1,11 +1,12 @@
-\* C11: the code as written against the strict NoAccessAfterReturn: EXPECTED TO BE VIOLATED (finding F4, rediscovery witness).
+\* C11 quick: the code as written against the strict NoAccessAfterReturn: EXPECTED TO BE VIOLATED (finding F4; the check
+\* verifies that the counterexample has F4's shape).  3 callers, responses in all orders (header and body separate arrivals), 1 deadline(s) may pass anywhere, 1 stream error(s), 0 unknown-or-duplicate response(s)
 SPECIFICATION Spec
 CONSTANTS
   C = {c1, c2, c3}
   Timed = {c1, c2, c3}
   MaxExpire = 1
   MaxErr = 1
-  MaxBogus = 1
+  MaxBogus = 0
   Variant = "asis"
   EarlyResponse = FALSE
 INVARIANTS NoAccessAfterReturn
